@@ -274,8 +274,7 @@ class _Inline(ast.NodeTransformer):
         return node
 
     def visit_Name(self, node):
-        if isinstance(node.ctx, ast.Load) and id(node) not in self.call_funcs and self.nested and node.id in self.nested[-1] \
-                and not any(node.id in s for s in self.shadow[:-1]):
+        if isinstance(node.ctx, ast.Load) and id(node) not in self.call_funcs and self.nested and node.id in self.nested[-1]:
             # N2b: a reference (not a call) to a nested one-expression def is the lambda it denotes
             fn = self.nested[-1][node.id]
             body = [s for s in fn.body if isinstance(s, ast.Return)][0].value
@@ -367,6 +366,23 @@ def _from_import_aliases(tree, module, name):
     return out
 
 
+def _beta(call):
+    """(lambda a, b: E)(x, y) -> E[x/a, y/b]; the application of what functools.partial denotes -> the call with the bound arguments"""
+    lam = call.func
+    a = lam.args
+    if a.vararg is not None and a.vararg.arg == "_pargs" and not a.args and isinstance(lam.body, ast.Call):
+        b = lam.body
+        args = [x for x in b.args if not (isinstance(x, ast.Starred) and _dotted(x.value) == "_pargs")] + list(call.args)
+        kws = [k for k in b.keywords if not (k.arg is None and _dotted(k.value) == "_pkw")] + list(call.keywords)
+        return ast.copy_location(ast.Call(func=b.func, args=args, keywords=kws), call)
+    if a.vararg or a.kwarg or a.kwonlyargs or a.posonlyargs or a.defaults or call.keywords or len(a.args) != len(call.args) or any(isinstance(x, ast.Starred) for x in call.args):
+        return None
+    body = copy.deepcopy(lam.body)
+    for p_, v_ in zip(a.args, call.args):
+        body = _SubstName(p_.arg, v_).visit(body)
+    return ast.copy_location(body, call) if hasattr(call, "lineno") else body
+
+
 class _Canon(ast.NodeTransformer):
     """N3, N4a, N5, N6, N14, N17-N21 (expression level)"""
     operator_aliases = frozenset()
@@ -414,6 +430,21 @@ class _Canon(ast.NodeTransformer):
 
     def visit_Call(self, node):
         self.generic_visit(node)
+        if isinstance(node.func, ast.Lambda):
+            red = _beta(node)
+            if red is not None:
+                return red
+        # list(map(<lambda>, X)) -> [<lambda applied to v> for v in X]   (the comprehension the lambda was extracted from)
+        if isinstance(node.func, ast.Name) and node.func.id == "list" and len(node.args) == 1 and not node.keywords and isinstance(node.args[0], ast.Call) \
+                and isinstance(node.args[0].func, ast.Name) and node.args[0].func.id == "map" and len(node.args[0].args) == 2 and isinstance(node.args[0].args[0], ast.Lambda):
+            v = ast.Name(id="_v", ctx=ast.Load())
+            app = _beta(ast.Call(func=node.args[0].args[0], args=[v], keywords=[]))
+            if app is not None:
+                comp = ast.ListComp(elt=app, generators=[ast.comprehension(target=ast.Name(id="_v", ctx=ast.Store()), iter=node.args[0].args[1], ifs=[], is_async=0)])
+                for x in ast.walk(comp):
+                    if not hasattr(x, "lineno"):
+                        ast.copy_location(x, node)
+                return ast.copy_location(comp, node)
         if isinstance(node.func, ast.Name) and node.func.id == "list" and len(node.args) == 1 and not node.keywords and isinstance(node.args[0], ast.GeneratorExp):
             return self._map(node.args[0], node)
         # N18: dict(a=1, b=2) -> {'a': 1, 'b': 2}
@@ -555,7 +586,7 @@ def _unroll(comp):
     g = comp.generators[0]
     if g.ifs or g.is_async or not isinstance(g.target, ast.Name) or not isinstance(g.iter, (ast.Tuple, ast.List)) or not (1 <= len(g.iter.elts) <= 4):
         return None
-    if not all(isinstance(x, (ast.Name, ast.Attribute, ast.Constant)) for x in g.iter.elts):
+    if any(isinstance(x, ast.Starred) for x in g.iter.elts):
         return None
     return [_SubstName(g.target.id, x).visit(copy.deepcopy(comp.elt)) for x in g.iter.elts]
 
@@ -834,7 +865,7 @@ def _shallow(t, keep):
 
 
 def _local_dicts(fn):
-    """N11: a local bound exactly once to a literal dict (constant keys, pure values) and only read afterwards is replaced by the literal"""
+    """N11: a local bound to a literal dict / literal tuple of references / lambda and only read afterwards (in the same block) is replaced by its value"""
     stores, other = {}, set()
     for n in ast.walk(fn):
         if isinstance(n, ast.Assign) and len(n.targets) == 1 and isinstance(n.targets[0], ast.Name):
@@ -862,7 +893,15 @@ def _local_dicts(fn):
     for name, sts in stores.items():
         if name in other:
             continue
-        if not all(_const_keys(st.value) and all(_pure(v, {}) for v in st.value.values) for st in sts):
+        def _inlinable(v):
+            if _const_keys(v) and all(_pure(x, {}) for x in v.values):
+                return True                                       # literal dict (dispatch table)
+            if isinstance(v, ast.Tuple) and v.elts and all(_pure(x, {}) for x in v.elts):
+                return True                                       # literal tuple of constants / references (loop table)
+            if isinstance(v, ast.Lambda):
+                return True                                       # local lambda (incl. what functools.partial denotes): reduced where applied
+            return False
+        if not all(_inlinable(st.value) for st in sts):
             continue
         loads = [x for x in ast.walk(fn) if isinstance(x, ast.Name) and x.id == name and isinstance(x.ctx, ast.Load)]
         if not loads:
@@ -877,7 +916,7 @@ def _local_dicts(fn):
                 break
             later = block[[i for i, x in enumerate(block) if x is st][0] + 1:]
             # no re-binding of the name (or of a referenced value) in the statements the binding reaches
-            vnames = {x.id for v in st.value.values for x in ast.walk(v) if isinstance(x, ast.Name)} | {name}
+            vnames = ({x.id for x in ast.walk(st.value) if isinstance(x, ast.Name) and isinstance(x.ctx, ast.Load)} - ({a.arg for a in ast.walk(st.value) if isinstance(a, ast.arg)})) | {name}
             if any(isinstance(x, ast.Name) and isinstance(x.ctx, ast.Store) and x.id in vnames for s2 in later for x in ast.walk(s2)):
                 okp = False
                 break
@@ -933,6 +972,8 @@ def normalize_module(mod, tree, pinned_funcs, pinned_globals):
     canon.operator_aliases = frozenset(_import_aliases(tree, "operator"))
     canon.partial_names = frozenset({a + ".partial" for a in _import_aliases(tree, "functools")} | _from_import_aliases(tree, "functools", "partial"))
     tree = canon.visit(tree)
+    tree = _LocalDicts().visit(tree)          # locals bound to what functools.partial denotes
+    tree = canon.visit(tree)                  # ... reduced where applied
     tree = _Bodies().visit(tree)
     tree = canon.visit(tree)
     ast.fix_missing_locations(tree)
